@@ -15,7 +15,8 @@ THEOREMS = ['C12_kept_column_reflected', 'C12_excluded_column_absent', 'C12_prim
 RULE = ('random model configurations: 1-6 columns with random type (Integer, Unicode, Boolean, DateTime), nullable / unique / '
         'index / autoincrement / default / server_default / onupdate / foreign key / aliased attribute name, 1-2 key '
         'columns, include / exclude subsets, strategy, custom names of the three internal columns (manager- or class-level), '
-        'table-name format, schema, inheritance kind (flat, joined child, single-table child), tracker plugin on/off; the '
+        'table-name format, schema, kind (flat model, joined child, single-table child, or a many-to-many ASSOCIATION TABLE '
+        'with its own key, payload columns and two NOT NULL reference columns, versioned through the relationship), tracker plugin on/off; the '
         'real declarative models are built, mappers configured, the version Table reflected into column records, tables '
         'created and a NULL-filled row inserted and read back. Non-trivial: >= 3 columns with at least one excluded '
         'column and one column carrying unique / default / onupdate / foreign key. Distinct: hash of the configuration.')
@@ -48,13 +49,18 @@ def gen_cfg(rng, i):
     exclude = [k for k in nonpk if rng.random() < 0.35]
     include = [k for k in exclude if rng.random() < 0.3]
     custom = rng.random() < 0.4
+    inherit = rng.choice(['flat', 'flat', 'joined', 'single', 'assoc'])
+    if inherit == 'assoc' and custom:
+        names_level = 'manager'      # an association table has no class whose __versioned__ could carry the names
+    else:
+        names_level = rng.choice(['manager', 'class']) if custom else 'manager'
     return dict(cols=cols, exclude=exclude, include=include,
                 strategy=rng.choice(['validity', 'subquery']), tracker=rng.random() < 0.4,
                 names=(['tx_id', 'end_tx_id', 'op_type'] if custom else ['transaction_id', 'end_transaction_id', 'operation_type']),
-                names_level=rng.choice(['manager', 'class']) if custom else 'manager',
+                names_level=names_level,
                 table_fmt=rng.choice(['%s_version', '%s_version', '%s_history', 'v_%s']),
                 schema=rng.choice([None, None, 'other']),
-                inherit=rng.choice(['flat', 'flat', 'joined', 'single']))
+                inherit=inherit)
 
 
 def gen_cases(rng, n, tier):
@@ -135,6 +141,22 @@ def make_build(cfg):
             env.target = type('M', (P,), attrs)
             env.parent_table = env.target.__table__
             env.others = [P]
+        elif cfg['inherit'] == 'assoc':
+            # the configured columns make up a many-to-many association TABLE (no model): its own key columns, the
+            # random payload columns and two NOT NULL reference columns; it is versioned through the relationship
+            pfx = 'other.' if cfg['schema'] else ''
+            t = sa.Table('m', Base.metadata, *([mkcol(c) for c in cfg['cols']] +
+                                               [sa.Column('l_id', sa.Integer, sa.ForeignKey(pfx + 'a.id'), nullable=False),
+                                                sa.Column('r_id', sa.Integer, sa.ForeignKey(pfx + 'b.id'), nullable=False)]),
+                         **targs)
+            A = type('A', (Base,), {'__tablename__': 'a', '__versioned__': dict(vo, exclude=[], include=[]),
+                                   '__table_args__': targs, 'id': sa.Column(sa.Integer, primary_key=True)})
+            B = type('B', (Base,), {'__tablename__': 'b', '__versioned__': dict(vo, exclude=[], include=[]),
+                                   '__table_args__': targs, 'id': sa.Column(sa.Integer, primary_key=True),
+                                   'as_': sa.orm.relationship(A, secondary=t, backref='bs')})
+            env.target = None
+            env.parent_table = t
+            env.others = [A, B]
         else:
             attrs = {'__tablename__': 'm', '__versioned__': vo, '__table_args__': targs,
                      'kind': sa.Column(sa.Unicode(10)),
@@ -161,6 +183,10 @@ def effective_cols(cfg):
                       autoinc=False, default=False, sdefault=False, onupdate=False, fk=False)] + cols +
                 [dict(name='extra', key='extra', type='Integer', pk=False, nullable=True, unique=False, index=False,
                       autoinc=False, default=False, sdefault=False, onupdate=False, fk=False)])
+    elif cfg['inherit'] == 'assoc':
+        ref = dict(type='Integer', pk=False, nullable=False, unique=False, index=False, autoinc=False, default=False,
+                   sdefault=False, onupdate=False, fk=True)
+        cols = cols + [dict(ref, name='l_id', key='l_id'), dict(ref, name='r_id', key='r_id')]
     return cols
 
 
@@ -175,9 +201,11 @@ def _observe(cfg):
         env = E.Env(options=opts, plugins=plugins, build=make_build(cfg), attach=(['other'] if cfg['schema'] else []))
         with env:
             sc = env.sc
-            V = sc.version_class(env.target)
-            vt = V.__table__
             pt = env.parent_table
+            if cfg['inherit'] == 'assoc':
+                vt = env.Base.metadata.tables[(pt.schema + '.' if pt.schema else '') + cfg['table_fmt'] % pt.name]
+            else:
+                vt = sc.version_class(env.target).__table__
             obs = []
             for c in vt.c:
                 tname = type(c.type).__name__
@@ -187,7 +215,7 @@ def _observe(cfg):
                                 onupdate=c.onupdate is not None, fk=bool(c.foreign_keys)))
             name_ok = vt.name == cfg['table_fmt'] % pt.name
             schema_ok = vt.schema == pt.schema
-            classes = [env.target] + list(env.others)
+            classes = ([env.target] if env.target is not None else []) + list(env.others)
             maps_ok = True
             seen = []
             for cls in classes:
@@ -255,8 +283,11 @@ def encode(case, obs):
     nm = Names()
     cols = effective_cols(cfg)
 
+    assoc = cfg['inherit'] == 'assoc'
+
     def excl(c):
-        return c['key'] in cfg['exclude'] and c['key'] not in cfg['include']
+        # include / exclude are options of a model; an association table has none
+        return not assoc and c['key'] in cfg['exclude'] and c['key'] not in cfg['include']
 
     def gp(c):
         return '(mkpc %s %s %s %s %s %s %s %s %s %s %s)' % (
@@ -274,7 +305,7 @@ def encode(case, obs):
     return ('{| c12_cols := %s; c12_validity := %s; c12_tracker := %s; c12_internal := true; c12_txn := %s; c12_endn := %s; '
             'c12_opn := %s; c12_modnames := %s; c12_obs := %s; c12_name_ok := %s; c12_schema_ok := %s; c12_maps_ok := %s; '
             'c12_shape_ok := %s; c12_roundtrip_ok := %s; c12_exc := %s |}') % (
-        pcols, gbool(cfg['strategy'] == 'validity'), gbool(cfg['tracker']), gZ(txn), gZ(endn), gZ(opn), mods,
+        pcols, gbool(cfg['strategy'] == 'validity'), gbool(cfg['tracker'] and not assoc), gZ(txn), gZ(endn), gZ(opn), mods,
         glist(obs['obs'], gv), gbool(obs['name_ok']), gbool(obs['schema_ok']), gbool(obs['maps_ok']),
         gbool(obs['shape_ok']), gbool(obs['roundtrip_ok']), gbool(obs['exc'] is not None))
 
